@@ -7,7 +7,7 @@ wt=/tmp/v/run_${prop}_${v}_$$; vc=/tmp/vm/${prop}_${v}_$$
 rm -rf $wt $vc; mkdir -p /tmp/v /tmp/vm
 git -C /repo worktree add -q --detach $wt HEAD || exit 2
 git -C $wt apply $pf || { echo "patch does not apply"; exit 2; }
-rsync -a --exclude .git --exclude replays /verif/ $vc/
+rsync -a --exclude .git --exclude replays ${VERIF_SRC:-/verif}/ $vc/
 cd $vc
 for c in "$@"; do
   PEVAL_REPO=$wt timeout 1500 ./check $c --tier quick > $vc/out_$c.log 2>/dev/null; rc=$?
